@@ -30,6 +30,13 @@ def run(ctx, res):
         else:
             res.bad("PARSE-PROGRESS", key, "forward-progress assertion in `%s`: %s" % (f.path, why), s.loc())
     PP.pop_unpop(P, reach, res)
+    if ctx.tier == "thorough":
+        from .. import loops as LP
+        LP.run(ctx, res, reach)
+        stale = PI.stale_rows(ctx, LAYERS)
+        for k in stale[:40]:
+            res.note("stale residue row (matches no site in this layer): %s" % k)
+        res.extra.setdefault("thorough", {})["stale_residue_rows_in_layer"] = len(stale)
     res.explanation = (
         "Decides the *no-panic* reading of C01 statically: the universe is every panic-capable operation in the MIR of "
         "the functions reachable (resolved calls + function references + closures + RTA-filtered class-hierarchy "
